@@ -75,6 +75,7 @@ THEOREMS = ["Pfl.CFG.genCounters_restores",
             "Pfl.FAObj.run_wf",
             "Pfl.FAObj.run_dfa",
             "Pfl.FAObj.mk_wf",
+            "Pfl.FAObj.mkT_wf",
             "Pfl.FAObj.api_wf",
             "Pfl.FAObj.api_dfa",
             "Pfl.PDAObj.run_edges",
